@@ -799,3 +799,59 @@ func init() {
 		return Iface{T: fn.Signature, V: &Closure{Fn: fn, Env: env}}
 	})
 }
+
+// callSync runs an interpreted function to completion on goroutine g from inside an intrinsic
+// (comparison callbacks of sort.Slice and friends). The callee must not block or reach a visible op.
+func (m *Machine) callSync(g *G, fnv Value, args []Value) Value {
+	depth := len(g.frames)
+	switch f := fnv.(type) {
+	case *Closure:
+		if f == nil {
+			m.throw("invalid memory address or nil pointer dereference (call of nil func)")
+		}
+		m.pushFrame(g, f.Fn, f.Env, args, nil)
+	case *ssa.Function:
+		m.pushFrame(g, f, nil, args, nil)
+	default:
+		m.fail("unsupported", fmt.Sprintf("callSync of %T", fnv))
+	}
+	var result Value
+	m.top(g).onReturn = func(res Value) Value { result = res; return res }
+	for len(g.frames) > depth {
+		if g.state != Runnable {
+			m.fail("unsupported", "callback blocked inside a library call")
+		}
+		if g.unwinding {
+			m.fail("unsupported", "panic inside a library callback")
+		}
+		if !m.step(g) {
+			m.fail("unsupported", "callback reached a synchronisation point inside a library call")
+		}
+	}
+	return result
+}
+
+func init() {
+	sortSlice := func(m *Machine, g *G, fr *Frame, in ssa.Instruction, args []Value) {
+		sv, _ := args[0].(Iface).V.(*SliceV)
+		less := args[1]
+		if sv != nil {
+			// stable insertion sort driven by the interpreted less(i, j); elements are moved in place
+			n := len(sv.A)
+			for i := 1; i < n; i++ {
+				for j := i; j > 0; j-- {
+					r := m.callSync(g, less, []Value{int64(j), int64(j - 1)})
+					if !m.truth(r) {
+						break
+					}
+					m.touch(&sv.A[j])
+					m.touch(&sv.A[j-1])
+					sv.A[j], sv.A[j-1] = sv.A[j-1], sv.A[j]
+				}
+			}
+		}
+		m.setResult(fr, in, nil)
+	}
+	intrinsics["sort.SliceStable"] = sortSlice
+	intrinsics["sort.Slice"] = sortSlice
+}
